@@ -8,6 +8,8 @@
 package main
 
 import (
+	"sync/atomic"
+	"bytes"
 	"crypto/ecdsa"
 	"fmt"
 	"math/big"
@@ -362,6 +364,16 @@ func restart(mode, wl string, dbOps [][]consensus.VerifOp, wal []byte, env strin
 	// the disk holds when the crash falls right after the group rotated its head (the new head appears with the next write)
 	rotated := strings.HasSuffix(env, "+rotated")
 	env = strings.TrimSuffix(env, "+rotated")
+	// "+split-eh" / "+split-mid": the group rotated its head right after the last #ENDHEIGHT record / in the middle of the
+	// unfinished height, and the node went on writing into the new head before the crash
+	split := 0
+	if strings.HasSuffix(env, "+split-eh") {
+		env = strings.TrimSuffix(env, "+split-eh")
+		split, _ = splitOffsets(wal)
+	} else if strings.HasSuffix(env, "+split-mid") {
+		env = strings.TrimSuffix(env, "+split-mid")
+		_, split = splitOffsets(wal)
+	}
 	rec2 := &consensus.VerifRecorder{Off: !record}
 	var all []consensus.VerifOp
 	for _, seg := range dbOps {
@@ -394,7 +406,7 @@ func restart(mode, wl string, dbOps [][]consensus.VerifOp, wal []byte, env strin
 			l2.cuts = append(l2.cuts, cut{idx: idx, walSynced: synced, walTail: tail, height: h})
 		}
 	}
-	n, err := consensus.VerifBootFull(consensus.VerifFullConfig{Key: valKey, Funded: []common.Address{userAddr}, Archive: mode == "flush", Snapshot: strings.HasSuffix(mode, "+snap"), DB: db2, WalDir: dir, WalImage: wal, WalRotated: rotated, Rec: rec2})
+	n, err := consensus.VerifBootFull(consensus.VerifFullConfig{Key: valKey, Funded: []common.Address{userAddr}, Archive: mode == "flush", Snapshot: strings.HasSuffix(mode, "+snap"), DB: db2, WalDir: dir, WalImage: wal, WalRotated: rotated, WalSplit: split, Rec: rec2})
 	if n != nil {
 		defer n.StopFull()
 	}
@@ -601,6 +613,32 @@ func firstLine(s string) string {
 }
 
 // record boundaries of the WAL framing: crc(4) length(4) payload
+var splitJobs int64
+
+// splitOffsets: eh = the offset right after the last #ENDHEIGHT record of the image when further records follow it (else 0);
+// mid = a record boundary in the middle of what follows (0 if fewer than two records follow).
+func splitOffsets(img []byte) (eh, mid int) {
+	bs := boundaries(img, 0)
+	lo, last := 0, -1
+	for i, hi := range bs {
+		dec := consensus.NewWALDecoder(bytes.NewReader(img[lo:hi]))
+		if m, err := dec.Decode(); err == nil && m != nil {
+			if _, ok := m.Msg.(consensus.EndHeightMessage); ok {
+				last = i
+			}
+		}
+		lo = hi
+	}
+	if last < 0 || last == len(bs)-1 {
+		return 0, 0
+	}
+	eh = bs[last]
+	if rest := len(bs) - 1 - last; rest >= 2 {
+		mid = bs[last+rest/2]
+	}
+	return
+}
+
 func boundaries(b []byte, from int) []int {
 	var out []int
 	i := from
@@ -659,6 +697,13 @@ func main() {
 				jobs = append(jobs, job{pr, c, "synced", c.walSynced, 0, "pool-empty"})
 				jobs = append(jobs, job{pr, c, "rotated", c.walSynced, 0, "reoffer+rotated"})
 				jobs = append(jobs, job{pr, c, "rotated", c.walSynced, 0, "pool-empty+rotated"})
+				if eh, mid := splitOffsets(c.walSynced); eh > 0 {
+					jobs = append(jobs, job{pr, c, "split-after-endheight", c.walSynced, 0, "reoffer+split-eh"})
+					atomic.AddInt64(&splitJobs, 1)
+					if mid > eh {
+						jobs = append(jobs, job{pr, c, "split-mid-height", c.walSynced, 0, "reoffer+split-mid"})
+					}
+				}
 				if len(c.walTail) > len(c.walSynced) {
 					jobs = append(jobs, job{pr, c, "whole", c.walTail, 0, "reoffer"})
 					jobs = append(jobs, job{pr, c, "whole", c.walTail, 0, "pool-empty"})
@@ -774,6 +819,9 @@ func main() {
 		f1 := factsAt(j.pr, j.c)
 		res, l2 := restart(j.pr.mode, j.pr.wl, [][]consensus.VerifOp{j.pr.ops[:j.c.idx]}, j.wal, j.env, f1, j.pr, level2)
 		r.Add("evaluations", 1)
+		if strings.Contains(j.env, "+split-") {
+			r.Add("restarts_on_a_wal_rotated_inside_the_unfinished_height", 1)
+		}
 		if level2 && l2 != nil && len(res) == 0 {
 			// second crash: every cut of the restarted node's own life (boot, WAL catch-up, two more heights)
 			for _, c2 := range l2.cuts {
